@@ -22,13 +22,17 @@
               order [keys]; covered when [keys] is duplicate-free (else no map has that order).
      OValues i vals  Values(m) for the map m : map[int]T with m[k] = the k-th element of [vals]
               ([imap]), ranged over in the order 0, 1, ... ([iord]): its value sequence is [vals].
-     ORange   [GFail not_translated_kind]: Range is not translated (iter.Seq), excluded by [src_op].
+     ORange i it   the generated Range (tied in round 6, GenTie/MapsetTieRest.v): the iter.Seq argument is
+              the sequence of values it yields ([Some items]; fuel 2 + its length), as in the model.  The
+              nil iterator ([None]) is excluded by [src_op]: the generated function answers Go's
+              nil-dereference panic (GFail PNil) where the model's embedded verdict is its own
+              PanicNilFunc message (C18_range_nil_is_source states both).
      ORemoveAll i i : excluded ([src_op]): the generated RemoveAll takes two maps by content and knows
               nothing of s.RemoveAll(s) (C18_removeall_self stays model-level).  AddAll i i and the
               readers with i = j are covered (their ties hold for equal arguments). *)
 From Coq Require Import ZArith List Bool Lia Permutation.
 From Mds Require Import Common.FnRt GenTie.TieLib Gen.FnMapset GenTie.MapsetTieBase.
-From Mds Require Import GenTie.MapsetTieRead GenTie.MapsetTieWrite GenTie.MapsetTieKeys GenTie.MapsetTieIntersect.
+From Mds Require Import GenTie.MapsetTieRead GenTie.MapsetTieWrite GenTie.MapsetTieKeys GenTie.MapsetTieIntersect GenTie.MapsetTieRest.
 From Mds Require Mapset.MapsetSpec Mapset.MapsetProofsHist Mapset.MapsetProofsId Props.C18.
 Import ListNotations.
 Local Open Scope Z_scope.
@@ -143,7 +147,7 @@ Definition gobserve {A : Type} (g : gstore) (r : res A) (f : A -> gout) : gstore
 
 Definition src_op (o : M.op T) : bool :=
   match o with
-  | M.ORange _ _ _ => false
+  | M.ORange _ _ it => match it with Some _ => true | None => false end
   | M.OKeys _ _ keys => M.nodupb T eqb keys
   | M.ORemoveAll _ i j _ => negb (Nat.eqb i j)
   | _ => true
@@ -168,7 +172,7 @@ Definition gstep (g : gstore) (o : M.op T) : gstore * gout :=
   | M.OClear _ i => gmutate g i (Ok (Clear (g i)))
   | M.OClone _ i j => gassign g i (Ok (Clone (g j)))
   | M.OIntersect _ i js ord => gassign g i (Intersect (map g js) eqb ord (fl (length ord + length js)))
-  | M.ORange _ _ _ => (g, GFail not_translated_kind)
+  | M.ORange _ i it => gassign g i (Range it eqb (fl (match it with Some items => length items | None => O end)))
   | M.OKeys _ i keys => gassign g i (Keys (U := unit) (Some (ents keys)) eqb keys (fl (length keys)))
   | M.OValues _ i vals =>
     gassign g i (Values (T := Z) (Some (imap vals)) Z.eqb (iord vals) eqb zero (fl (length vals)))
@@ -279,6 +283,9 @@ Proof.
     rewrite (C18_intersect_is_source eqb eqb_spec (map st js) next ord)
       by (try (intros s Hs; apply in_map_iff in Hs; destruct Hs as [k [<- _]]; apply W); rewrite ?map_length; lia).
     apply assign_sim; exact Sg.
+  - destruct it as [items|]; [|discriminate Ho].
+    rewrite (C18_range_is_source eqb eqb_spec items next (S (S (length items)))) by lia.
+    apply assign_sim; exact Sg.
   - cbn [src_op] in Ho. apply MapsetProofs.nodupb_NoDup in Ho; [|exact eqb_spec].
     assert (Wk : wf (Some (1%positive, keys))) by exact Ho.
     assert (Ok_ : go_nmap_order_ok eqb (Some (ents keys)) keys = true).
@@ -366,7 +373,8 @@ Qed.
 Lemma sstep_no_nilfunc (sst : MS.sstore T) (o : M.op T) : src_op o = true ->
   snd (MS.sstep T eqb zero sst o) <> MS.SPanicNilFunc T.
 Proof.
-  destruct o; cbn [src_op MS.sstep MS.sassign snd]; try discriminate; intros _; try discriminate.
+  destruct o; try match goal with it : option (list T) |- _ => destruct it end;
+    cbn [src_op MS.sstep MS.sassign snd]; try discriminate; intros _; try discriminate.
   destruct (sst i) as [|a A]; [discriminate|]. destruct ord as [|x ord]; [discriminate|].
   destruct (MS.s_mem T eqb x (a :: A)); discriminate.
 Qed.
